@@ -24,6 +24,7 @@ sibling rule, re-evaluated here. Content integrity on the way: nothing in anemo:
 anemo::middleware calls a mutating Request/Response method (classified from the method signatures) or
 writes a header field, except on a message the library itself has just created.
 One layer out: Network::rpc only forwards to NetworkInner::rpc, and the router hands the handler the request it received (C16.1 re-evaluated).
+Each path is registered, and re-registered by merge, with its own handler (C16.3, C16.4 re-evaluated).
 """
 TRUSTED = ["QUIC stream reliability/ordering under datagram loss, reordering, duplication (quinn)", "tower ServiceExt::oneshot calls the service once"]
 NOT_DECIDED = ["behaviour under datagram loss/reordering/duplication (inside quinn)", "interleavings of concurrent handlers (they share no mutable state by the ownership rules above)",
@@ -342,7 +343,7 @@ def run(cx):
             ob.require(not [k for k in kids if k.coroutine], f"sendstream/{m}/no-future", f"{b.path} builds an async block / future (not cancel-safe across polls)", b.path)
         ob.floor(n, 3, "forwarding calls inspected")
 
-    with cx.ob("C02.9", "R-PATHSEQ", "one layer out: the router hands the handler the request it received - one dispatch per request, route untouched (C16.1 re-evaluated)") as ob:
+    with cx.ob("C02.9", "R-PATHSEQ", "one layer out: the router hands the handler the request it received - one dispatch per request, route untouched, each path registered with its own handler (C16.1, C16.3, C16.4 re-evaluated)") as ob:
         from . import c16
         sub = cx.__class__("C02", prog, cx.tier, cx.config, cx.tree, repo=cx.repo)
         c16.run(sub)
@@ -350,3 +351,9 @@ def run(cx):
         ob.count(sum(x.evals for x in w))
         bad = [v for x in w for v in x.violations]
         ob.require(len(w) == 1 and not bad, "router/request-unchanged", "the router can rewrite or re-dispatch a request: " + "; ".join(str(v.msg) for v in bad)[:300], "anemo::routing::Router")
+        # ... and the handler it dispatches to is the one registered under that route: registration (route) and
+        # re-registration (merge) keep each path paired with its own service value (C16.3, C16.4 re-evaluated)
+        w = [x for x in sub.obs if x.oid in ['C16.3', 'C16.4']]
+        ob.count(sum(x.evals for x in w))
+        bad = [v for x in w for v in x.violations]
+        ob.require(len(w) == 2 and not bad, "router/handler-of-route", "a route can end up paired with another route's handler: " + "; ".join(str(v.msg) for v in bad)[:300], "anemo::routing::Router")
